@@ -7,7 +7,9 @@ Grid22   == << <<1, 2>>, <<1, 3>>, <<2, 4>>, <<3, 4>> >>                     \* 
 Grid23   == << <<1, 2>>, <<2, 3>>, <<4, 5>>, <<5, 6>>, <<1, 4>>, <<2, 5>>, <<3, 6>> >>
 TriTail  == << <<1, 2>>, <<2, 3>>, <<1, 3>>, <<3, 4>> >>                     \* triangle with a tail
 
-G(name, cls, dims, edges) == [name |-> name, cls |-> cls, dims |-> dims, edges |-> edges]
+\* depth: how many gates are explored on this geometry (0 = the configuration's MaxDepth)
+G(name, cls, dims, edges) == [name |-> name, cls |-> cls, dims |-> dims, edges |-> edges, depth |-> 0]
+Deep(g, d) == [g EXCEPT !.depth = d]
 
 Mps3   == G("mps3",   "mps",  <<2, 3, 2>>,    Chain(3))
 Mps4   == G("mps4",   "mps",  <<2, 3, 2, 2>>, Chain(4))
@@ -21,7 +23,7 @@ Pepo22 == G("pepo22", "pepo", <<2, 2, 2, 2>>, Grid22)
 Pepo12 == G("pepo12", "pepo", <<3, 2>>,       Chain(2))
 Gen4   == G("gen4",   "gen",  <<2, 3, 2, 2>>, TriTail)
 
-GeomsQuick    == <<Mps3, Mpsc3, Mpo2, Peps22, Pepo12, Gen4>>
+GeomsQuick    == <<Deep(Mps3, 2), Mpsc3, Deep(Mpo2, 2), Peps22, Pepo12, Gen4>>
 GeomsThorough == <<Mps3, Mps4, Mpsc3, Mpsc4, Mpo2, Mpo3, Peps22, Pepo12, Gen4>>
 GeomsSim      == <<Mps3, Mps4, Mpsc3, Mpsc4, Mpo2, Mpo3, Peps22, Peps23, Pepo12, Pepo22, Gen4>>
 Gids13 == {1, 3}
